@@ -25,6 +25,8 @@ func SetIntMode(math bool) {
 	}
 	mathInts = math
 	layoutCache = map[string]*Layout{}
+	dataSorts = map[string]*Sort{} // tuple sorts of composite map keys have int-typed fields
+	arrSorts = map[string]*Sort{}  // array sorts are interned by name and refer to those sorts
 	if math {
 		IdxSort = IntSort
 	} else {
